@@ -77,7 +77,7 @@ pub fn property() -> Property {
         id: 0,
         name: "bad changes in the topic cache, every API form",
         quick: 6_000,
-        thorough: 600_000,
+        thorough: 3_000_000,
         max_len: 120,
         max_threads: 0,
       },
@@ -85,7 +85,7 @@ pub fn property() -> Property {
         id: 1,
         name: "bad DATA submessages through the RTPS Reader",
         quick: 3_000,
-        thorough: 300_000,
+        thorough: 1_500_000,
         max_len: 120,
         max_threads: 0,
       },
